@@ -79,7 +79,7 @@ let parse_abs (s : string) : n list =
   (* absolute name, root label first *)
   let labs = List.filter (fun x -> x <> "") (String.split_on_char '.' s) in
   enc_label "" :: List.rev_map enc_label labs
-let tcache : (string * (znode * (n * n) list)) option ref = ref None
+let tcache : (string * (zroots * (n * n) list)) option ref = ref None
 let handle_tree (ws : string list) : string =
   let (opw, q) = split_q [] ws in
   let key = String.concat " " opw in
@@ -88,21 +88,35 @@ let handle_tree (ws : string list) : string =
     | Some (k, v) when k = key -> v
     | _ ->
       let ops = List.map (fun w -> match String.split_on_char ':' w with
-        | ["ti"; nm; id] -> ZIns (parse_abs nm, num id)
-        | ["tr"; nm] -> ZRem (parse_abs nm)
+        | ["ti"; nm; id] -> ZIns (num "1", parse_abs nm, num id)
+        | ["tr"; nm] -> ZRem (num "1", parse_abs nm)
+        | ["ti"; nm; id; cls] -> ZIns (num cls, parse_abs nm, num id)
+        | ["tr"; nm; cls] -> ZRem (num cls, parse_abs nm)
         | _ -> failwith ("bad tree op " ^ w)) opw in
       let v = c08_tree_run ops in tcache := Some (key, v); v in
   let es = if errs = [] then "-" else String.concat "," (List.map (fun (i, e) ->
     string_of_int (int_of_n i) ^ ":" ^ (match int_of_n e with 11 -> "ZoneExists" | 12 -> "ZoneDoesNotExist" | _ -> "?")) errs) in
   let sh = function Some z -> string_of_int (int_of_n z) | None -> "-" in
   match q with
-  | ["f"; nm] -> Printf.sprintf "F=%s E=%s" (sh (c08_tree_find t (parse_abs nm))) es
-  | ["g"; nm] -> Printf.sprintf "G=%s E=%s" (sh (c08_tree_get t (parse_abs nm))) es
+  | ["f"; nm] -> Printf.sprintf "F=%s E=%s" (sh (c08_tree_find (num "1") (parse_abs nm) t)) es
+  | ["g"; nm] -> Printf.sprintf "G=%s E=%s" (sh (c08_tree_get (num "1") (parse_abs nm) t)) es
+  | ["f"; nm; cls] -> Printf.sprintf "F=%s E=%s" (sh (c08_tree_find (num cls) (parse_abs nm) t)) es
+  | ["g"; nm; cls] -> Printf.sprintf "G=%s E=%s" (sh (c08_tree_get (num cls) (parse_abs nm) t)) es
   | ["l"] -> let l = List.sort compare (List.map int_of_n (c08_tree_list t)) in
              Printf.sprintf "L=%s E=%s" (if l = [] then "-" else String.concat "," (List.map string_of_int l)) es
   | _ -> failwith "bad tree query"
+let handle_tomsg (ws : string list) : string =
+  match ws with
+  | [limit; stream; qn; ty; n; rdlen] ->
+      let lim = if limit = "-" then None else Some (num limit) in
+      let labs = List.filter (fun x -> x <> "") (String.split_on_char '.' qn) in
+      let qname = List.map (fun l -> List.init (String.length l) (fun i -> n_of_int (Char.code l.[i]))) labs in
+      (match c08_tomsg lim (stream = "1") qname (num ty) (num n) (num rdlen) with
+       | None -> "Panic"
+       | Some (an, tc) -> Printf.sprintf "an=%d tc=%d" (int_of_n an) (if tc then 1 else 0))
+  | _ -> failwith "bad tomsg case"
 let handle (ws : string list) : string =
-  match ws with "tree" :: rest -> handle_tree rest | _ ->
+  match ws with "tree" :: rest -> handle_tree rest | "tomsg" :: rest -> handle_tomsg rest | _ ->
   let (opw, q) = split_q [] ws in
   let key = String.concat " " opw in
   let (z, errs) =
